@@ -660,7 +660,15 @@ func (c *client) handlePrepare(raw *frame.RawFrame, msg *message.Prepare, body *
 		} else {
 			switch s := stmt.(type) {
 			case *parser.SelectStatement:
-				if systemColumns, ok := parser.SystemColumnsByName[s.Table]; ok {
+				systemColumns, ok := parser.SystemColumnsByName[s.Table]
+				if len(c.proxy.cluster.Info.DSEVersion) > 0 { // Use the same column tables as interceptSystemQuery
+					if s.Table == "local" {
+						systemColumns = parser.DseSystemLocalColumns
+					} else if s.Table == "peers" {
+						systemColumns = parser.DseSystemPeersColumns
+					}
+				}
+				if ok {
 					if columns, err := parser.FilterColumns(s, systemColumns); err != nil {
 						c.send(hdr, &message.Invalid{ErrorMessage: err.Error()})
 					} else {
